@@ -12151,8 +12151,9 @@ tsk_table_collection_link_ancestors(tsk_table_collection_t *self, tsk_id_t *samp
 
     tsk_memset(&ancestor_mapper, 0, sizeof(ancestor_mapper_t));
 
-    /* The ancestor mapper indexes the node table by the ids stored in the edges */
-    ret = (int) tsk_table_collection_check_integrity(self, 0);
+    /* The ancestor mapper indexes the node table by the ids stored in the edges
+     * and, like simplify, processes the edges in the required sorted order */
+    ret = (int) tsk_table_collection_check_integrity(self, TSK_CHECK_EDGE_ORDERING);
     if (ret != 0) {
         goto out;
     }
